@@ -16,12 +16,13 @@ ARGV = [b"", b"x", b"a.b", b"a.b.c", b"/", b"/a", b"/a/", b"/a/b", b"com.example
 DEFAULT_WEIGHTS = {
     "connect": 4, "hello": 6, "close": 2, "request": 14, "release": 7, "query": 6, "addmatch": 8, "removematch": 4,
     "signal": 12, "call": 12, "reply": 8, "driver_edge": 5, "forged": 6, "garbage": 1, "badtype": 2, "nodest": 2, "sleep": 0, "monitor": 0,
-    "hostile": 0, "preauth": 0,
+    "hostile": 0, "preauth": 0, "fdsend": 0,
 }
 
 
 class Gen:
-    def __init__(self, rng, weights=None, max_conns=5, uids=(0,), fdpass=False, names=None, rule_uniques=True, big=None):
+    def __init__(self, rng, weights=None, max_conns=5, uids=(0,), fdpass=False, names=None, rule_uniques=True, big=None, maxfds=16):
+        self.maxfds = maxfds
         self.r = rng
         self.w = dict(DEFAULT_WEIGHTS)
         if weights:
@@ -70,8 +71,9 @@ class Gen:
     def do_connect(self):
         cid = self.next_cid; self.next_cid += 1
         uid = self.r.choice(self.uids)
-        self.ops.append(("connect", cid, uid, self.fdpass and self.r.random() < 0.7))
-        self.open[cid] = {"active": False, "unique": None, "serial": 0, "uid": uid}
+        fd = self.fdpass and self.r.random() < 0.7
+        self.ops.append(("connect", cid, uid, fd))
+        self.open[cid] = {"active": False, "unique": None, "serial": 0, "uid": uid, "fd": fd}
         self.rules[cid] = []
         return cid
 
@@ -142,6 +144,12 @@ class Gen:
             return
         if k == "preauth":
             self.do_preauth(); return
+        if k == "fdsend":
+            good = [c for c, v in self.open.items() if c != 0 and v["active"] and v.get("fd")]
+            cands = good if good and self.r.random() < 0.85 else [c for c in self.open if c != 0]
+            if cands:
+                self.do_fdsend(self.r.choice(cands))
+            return
         if k == "hostile":
             cands = [c for c in self.open if c != 0]
             if cands:
@@ -312,6 +320,59 @@ class Gen:
             self.send(cid, data)
             # the model decides whether this was invalid; if it was, the connection is gone
             self.maybe_dead = cid
+
+    # ---- descriptor passing (C15)
+    def do_fdsend(self, cid):
+        r = self.r
+        self.count("fdsend")
+        maxfds = getattr(self, "maxfds", 16)
+        x = r.random()
+        others = [v["unique"] for c, v in self.open.items() if v["unique"] and c != cid]
+        def dest_for():
+            if others and r.random() < 0.75:
+                return r.choice(others).decode()
+            return self.some_dest().decode()
+        if r.random() < 0.3:
+            lis = [c for c, v in self.open.items() if v["active"] and c != cid]
+            if lis:
+                self.bus_call(r.choice(lis), "AddMatch", "s", [b"type='signal'"])
+        if x < 0.45:
+            sig, vals = self.body()
+            dest = None if r.random() < 0.5 else dest_for()
+            m = signal_msg(self.serial(cid), r.choice(PATHS).decode(), r.choice(IFACES).decode(), r.choice(MEMBERS).decode(), sig, vals, dest=dest)
+        elif x < 0.85:
+            sig, vals = self.body()
+            m = method_call(self.serial(cid), dest_for(), r.choice(PATHS).decode(), r.choice(IFACES).decode(), "M", sig, vals,
+                            flags=r.choice([0, 0, 1]))
+        elif x < 0.93:
+            m = reply_msg(self.serial(cid), r.randint(1, 9), dest_for(), error=r.choice([None, "a.E"]))
+        else:
+            m = method_call(self.serial(cid), BUS, BUS_PATH, BUS, r.choice(["GetId", "ListNames"]))
+        k = r.choice([0, 0] + [1] * 9 + [2] * 7 + [3] * 4 + [maxfds, maxfds + 1, maxfds - 1])
+        y = r.random()
+        if y < 0.72: a = k
+        elif y < 0.84: a = k + r.choice([1, 2])
+        elif y < 0.89: a = max(0, k - 1)
+        elif y < 0.92: a = 0
+        elif y < 0.96: a = maxfds + r.choice([0, 1, 3])
+        else: a = r.randint(0, maxfds)
+        if k:
+            m.fields.append((9, ('b', 'u'), k))
+        toks = []
+        for _ in range(a):
+            t = getattr(self, "next_tok", 1); self.next_tok = t + 1; toks.append(t)
+        data = m.marshal()
+        if r.random() < 0.1:
+            data += method_call(self.serial(cid), BUS, BUS_PATH, BUS, "GetId").marshal()      # a second message in the same sendmsg
+        cut = r.randrange(1, len(data)) if r.random() < 0.15 else 0
+        self.count("fdsend:k=%s,a=%s" % ("0" if k == 0 else "max+1" if k > maxfds else "n", "k" if a == k else "more" if a > k else "less"))
+        self.ops.append(("fdsend", cid, data, toks, cut))
+        c = self.open[cid]
+        have = c.get("pend", 0)
+        if not c["active"] or (not c.get("fd") and k > 0) or k > maxfds or a > maxfds - have or a + have < k:
+            del self.open[cid]          # the bus will have dropped it: not used again
+        else:
+            c["pend"] = have + a - k
 
     # ---- hostile clients (C10)
     def template(self, cid):
